@@ -104,7 +104,7 @@ pub fn gen(tier: &str, r: &mut Rng, emit: &mut dyn FnMut(Vec<u64>)) {
     }
     for _ in 0..(if thorough { 50_000 } else { 3_000 }) {
         let n = r.below(12);
-        let s: String = (0..n).map(|_| r.pick(&['/', '/', 'a', 'b', '.', 'é', '€', '𝄞', ' ', '?'])).collect();
+        let s: String = (0..n).map(|_| r.pick(&['/', '/', 'a', 'b', '.', 'é', '€', '𝄞', ' ', '?', '%', '2', '5', 'F', 'f', '+', '&', '='])).collect();
         let d = suite06::rand_pkt(r);
         let mut v = vec![4]; d.write(&mut v); wr_bytes(&mut v, s.as_bytes()); emit(v);
     }
